@@ -1,18 +1,36 @@
 PROPS["C09"] = dict(
-    pkg="p_lru", hooks=[], level="exploration", design="DESIGN.md §4 C09",
-    technique="concurrent PBT: controlled mode in a testing/synctest bubble (creations park on a harness gate, the schedule is a generated value) and free-running mode (-race in thorough); oracles: single-flight monitor, created/deleted ledger, capacity bound, linearizability against a sequential LRU model (porcupine)",
+    pkg="p_lru", hooks=["iterable", "lru"], level="exploration", design="DESIGN.md §4 C09",
+    technique="concurrent PBT: controlled mode in a testing/synctest bubble (creations park on a harness gate, the schedule is a generated value), free-running mode (-race in thorough) and squeezed mode (gates on the real clock; the order of critical sections is forced through the cache's own mutex, overlay accessor VerifWithLock + sync.Mutex hand-over in arrival order); "
+              "oracles: single-flight monitor, created/deleted ledger, capacity bound (ledger and, through the overlay accessor VerifWalk, the cache's own resident count), linearizability against a sequential LRU model (porcupine)",
     rule="case = capacity 1..3, 1..3 keys, 2..4 worker programs of <= 6 (10 free-running) calls over GetOrCreate/Remove/Clear; controlled mode adds <= 60 "
          "scheduler decisions {start the next call of an idle worker, complete the creation parked for key k with success or failure} followed by a "
          "drain; free-running mode lets 0/20/50% of creations fail and yields inside the create function. Every call is recorded with the value "
          "returned, the value it created and the delete callbacks it made (attributed by goroutine); after a final Clear every created value must "
          "have been deleted exactly once. Capacity 1..4 over 1..6 keys, key 0 being the zero value of the key type (the empty string); one case in four is a long recency history (10-40 calls, heavy on hits and removals) on one worker with the others interfering a little. One case in four builds the cache WITHOUT a delete callback (a legal configuration): the ledger is then silent and the case is judged on returned values, creations (hit vs miss) and Clear counts against the sequential LRU model. non-trivial = two workers were inside GetOrCreate of one key at the same time, or a delete callback ran "
-         "while a creation was between its start and its insertion; distinct = hash of (case, mode)",
-    assumptions=["controlled mode: schedules at the granularity of 'creation completes' decisions, runs to quiescence in between (synctest.Wait); free-running mode samples real schedules",
+         "while a creation was between its start and its insertion; distinct = hash of (case, mode). "
+         "Value type: one case in three uses lru.Cache[string,any] instead of lru.Cache[string,int] - the value type is an interface type and a successful creation hands over a non-nil pointer, the nil interface value "
+         "(create returns (nil, nil)) or a typed nil pointer (controlled/squeezed: part of the 'complete the creation' decision, 5:4:1; free-running: 30/60/100% of the successful creations are nil). A nil value is a value: "
+         "hits and waiters return that kind of nil, the model keeps it resident and evicts it in its turn, the ledger demands exactly one delete callback for it (a nil value carries no id: the callback's (key, nil) is charged to the one "
+         "value of that kind created for the key and not yet deleted - single-flight and 'a value leaves only through the callback' make it unique). "
+         "Capacity: 1..4, or (one case in seven) one of {math.MaxInt, math.MaxInt-1, 2^40, 2^31, 2^16}, the spellings of 'unbounded': the model never evicts; nothing in the harness allocates or adds by capacity. "
+         "Epilogue of every history, in every mode: when all worker calls have returned, min(capacity, 4) GetOrCreate calls on fresh keys are made one after the other (their creations succeed at once), then the final Clear; they are ordinary calls of the "
+         "linearizability history, and in a full cache each must evict exactly the then least recently used entry - so the recency order the concurrent part left behind is read back through the delete callbacks whether or not the generated programs "
+         "happened to evict afterwards (an unbounded cache gets 2 such calls, which must not evict; a cache without callback shows less). "
+         "Resident count: at every quiescent point of the controlled and the squeezed mode, and before and after the final Clear in every mode, the cache's own resident count (VerifWalk, under its mutex) must be <= capacity (lru:walk-over-capacity) - "
+         "the created-minus-deleted ledger cannot see an entry that was put back after its delete callback. "
+         "Squeezed mode (unit squeezed; 1..3 keys, capacity mostly 1-2, 3..5 workers, GetOrCreate-heavy programs, the decision lists of the controlled mode run outside a bubble, quiescence = every busy worker is parked at its gate, has returned, "
+         "or called GetOrCreate for a key whose creation another worker has parked): one decision in three is a SQUEEZE - the harness takes the cache's mutex, completes a parked creation (preferably one other callers wait for) and fires 1..3 "
+         "overtakers behind it 1.5 ms apart (complete another parked creation / start the next call of an idle worker: Remove, Clear, GetOrCreate), then lets go: the mutex is handed over in arrival order, so the creator publishes, the overtakers "
+         "evict / remove / clear, and only then the callers woken by the creator look at the cache again; the drain squeezes as well (at most 6 per case). The order is a strong tendency, not a guarantee; no oracle depends on it",
+    assumptions=["a creation that returns (nil value, nil error) 'produced a value successfully' in the sense of the statement (CreatePoolElemF is func(K) (V, error); success is decided by the error alone), and every maxSize >= 1 is a legal capacity",
+                 "squeezed mode and the resident count need the overlay accessors (*ECache).VerifWithLock / VerifWalk (they take the cache's mutex and change nothing); without them the unit reports inconclusive and the other monitors run unchanged",
+                 "controlled mode: schedules at the granularity of 'creation completes' decisions, runs to quiescence in between (synctest.Wait); free-running mode samples real schedules",
                  "sequential specification: hit returns the resident value and makes it most recently used; a miss that creates inserts and evicts exactly the LRU entry when over capacity; "
                  "a failed creation changes nothing; Remove/Clear report what they removed", "porcupine v1.3.0; a checker timeout is inconclusive"],
     units=[
         dict(name="controlled", run="^TestC09Controlled$", checks=(6000, 40000), shards=(2, 16), timeout=(300, 1800)),
         dict(name="free", run="^TestC09Free$", checks=(3000, 20000), shards=(2, 16), timeout=(300, 1800), race=(False, True), shrinktime="10s"),
+        dict(name="squeezed", run="^TestC09Squeezed$", checks=(200, 1200), shards=(4, 16), timeout=(300, 1800), shrinktime="10s"),
     ],
 )
 
@@ -20,5 +38,6 @@ LEVEL_TEXT["C09"] = (
     "Generated multi-goroutine programs run against the real cache; in controlled mode the harness decides when each creation completes and "
     "with which outcome, so overlapping GetOrCreate calls, evictions and removals landing inside a creation are constructed rather than hoped "
     "for. Monitors decide single-flight and the capacity bound at every quiescent point, a ledger balances created against deleted values, "
-    "and porcupine decides whether the recorded history equals some sequential LRU history. Sampled schedules."
+    "and porcupine decides whether the recorded history equals some sequential LRU history. In squeezed mode the window between a creator's publication and the wake-up of the callers that "
+    "waited for it is held open, through the cache's own mutex, for whole calls of other goroutines. Values include nil interface values and typed nil pointers, capacities include math.MaxInt. Sampled schedules."
 )
